@@ -105,6 +105,14 @@ func pkgAssignments(n int) [][]string {
 	return out
 }
 
+// collidingPkgs are distinct go_package values chosen so that concatenations of two of them coincide ("m"+"mm" ==
+// "mm"+"m", ""+"ab" == "a"+"b"): whatever the implementation keys by a pair of packages must keep the pair apart.
+func collidingPkgs(n int) [][]string {
+	a := []string{"m", "mm", "mmm", "mmmm"}[:n]
+	b := []string{"", "ab", "a", "b"}[:n]
+	return [][]string{a, b}
+}
+
 func distinctPkgs(n int) []string {
 	p := make([]string, n)
 	for i := range p {
